@@ -13,7 +13,9 @@ Model of `vinegar/template/jinja.py` (`JinjaEngine`) as far as property C17 spea
   cache, `FileSystemLoader`, `_NoCacheFileSystemLoader` — the latter in its REPAIRED form (D11):
   the callable takes no argument and returns `False`),
 * `renderTemplate` evaluates include/import through `joinPath`
-  (`_Environment.join_path` / `jinja2.Environment.join_path`) and `getTemplate`,
+  (`_Environment.join_path` / `jinja2.Environment.join_path`) and `getTemplate`; an include with
+  `ignore missing` swallows the `TemplateNotFound` of its own `get_template` call and nothing else
+  (`onGetError`),
 * `checkAccess`/`pyGet` are `_PythonHelper._check_access` / `__getitem__`.
 
 What is modelled and not verified: Jinja2's own cache (unbounded here; the real LRU only evicts,
@@ -42,6 +44,9 @@ inductive Node where
   | var (x : String)
   /-- `{% include "name" %}` -/
   | incl (n : Name)
+  /-- `{% include "name" ignore missing %}`: as `incl`, except that a `TemplateNotFound` raised by
+  *getting* that very template renders as the empty string -/
+  | inclOpt (n : Name)
   /-- `{% import "name" as m %}{{ m }}` (the imported module's body, evaluated without context) -/
   | imp (n : Name)
   /-- `{{ python["key"] }}` -/
@@ -313,8 +318,18 @@ def mergeCtx (base caller : Ctx) : Ctx := base ++ caller
 
 def lookupVar (ctx : Ctx) (x : String) : String := (ctx.lookup x).getD ""
 
-/-- body of a compiled template; `sub` is `environment.get_template(name, parent).render…` -/
-def renderNodes (cfg : Cfg) (sub : Name → Ctx → Cache → Outcome × Cache) (ctx : Ctx) :
+/-- what the compiled include does with an exception of `environment.get_template`: with
+`ignore missing` the code is `try: template = get_template(…) except TemplateNotFound: pass else:
+<render it>`, so exactly the `TemplateNotFound` of that call is swallowed (nothing is written);
+every other exception (`NotADirectoryError` escaping `_Loader.get_source`) and every exception of
+the `else` branch (rendering the included template) propagates -/
+def onGetError : Bool → Err → Outcome
+  | true, .notFound => .ok ""
+  | _, e => .error e
+
+/-- body of a compiled template; `sub opt` is `environment.get_template(name, parent).render…`,
+`opt` = inside the `try … except TemplateNotFound` of `ignore missing` -/
+def renderNodes (cfg : Cfg) (sub : Bool → Name → Ctx → Cache → Outcome × Cache) (ctx : Ctx) :
     List Node → Cache → Outcome × Cache
   | [], c => (.ok "", c)
   | n :: rest, c =>
@@ -322,8 +337,9 @@ def renderNodes (cfg : Cfg) (sub : Name → Ctx → Cache → Outcome × Cache) 
       match n with
       | .text s => (.ok s, c)
       | .var x => (.ok (lookupVar ctx x), c)
-      | .incl t => sub t ctx c
-      | .imp t => sub t [] c
+      | .incl t => sub false t ctx c
+      | .inclOpt t => sub true t ctx c
+      | .imp t => sub false t [] c
       | .py key => (pyGet cfg.allow cfg.modules key, c)
     match r.1 with
     | .error e => (.error e, r.2)
@@ -332,21 +348,22 @@ def renderNodes (cfg : Cfg) (sub : Name → Ctx → Cache → Outcome × Cache) 
       (r2.1.map (s ++ ·), r2.2)
 
 /-- `environment.get_template(name)` followed by rendering with `ctx`; `fuel` bounds the
-include depth -/
-def renderTemplate (cfg : Cfg) (fs : FS) : Nat → Name → Ctx → Cache → Outcome × Cache
-  | 0, _, _, c => (.error .recursion, c)
-  | fuel + 1, name, ctx, c =>
+include depth; `opt` = the call comes from an `ignore missing` include (only the failure of THIS
+`get_template` is affected by it: the nested includes carry their own flags) -/
+def renderTemplate (cfg : Cfg) (fs : FS) : Nat → Bool → Name → Ctx → Cache → Outcome × Cache
+  | 0, _, _, _, c => (.error .recursion, c)
+  | fuel + 1, opt, name, ctx, c =>
     match getTemplate cfg fs c name with
-    | (.error e, c') => (.error e, c')
+    | (.error e, c') => (onGetError opt e, c')
     | (.ok t, c') =>
       renderNodes cfg
-        (fun t' ctx' c'' => renderTemplate cfg fs fuel (joinPath cfg.relative t' name) ctx' c'')
+        (fun o t' ctx' c'' => renderTemplate cfg fs fuel o (joinPath cfg.relative t' name) ctx' c'')
         ctx t c'
 
 /-- `JinjaEngine.render` -/
 def engineRender (cfg : Cfg) (fuel : Nat) (fs : FS) (c : Cache) (name : Name) (caller : Ctx) :
     Outcome × Cache :=
-  renderTemplate cfg fs fuel name (mergeCtx cfg.baseCtx caller) c
+  renderTemplate cfg fs fuel false name (mergeCtx cfg.baseCtx caller) c
 
 /-! ### histories -/
 
@@ -404,7 +421,8 @@ def getTemplateM (cfg : Cfg) (fs : FS) (c : MCache) (n : Name) : Except Err Tmpl
   | some (t, s, _) => if upToDate cfg fs n s then (.ok t, c) else load
   | none => load
 
-def renderNodesM (cfg : Cfg) (sub : Bool → Name → Ctx → MCache → Outcome × MCache) (ctx : Ctx) :
+/-- `sub asImport opt` -/
+def renderNodesM (cfg : Cfg) (sub : Bool → Bool → Name → Ctx → MCache → Outcome × MCache) (ctx : Ctx) :
     List Node → MCache → Outcome × MCache
   | [], c => (.ok "", c)
   | n :: rest, c =>
@@ -412,8 +430,9 @@ def renderNodesM (cfg : Cfg) (sub : Bool → Name → Ctx → MCache → Outcome
       match n with
       | .text s => (.ok s, c)
       | .var x => (.ok (lookupVar ctx x), c)
-      | .incl t => sub false t ctx c
-      | .imp t => sub true t [] c
+      | .incl t => sub false false t ctx c
+      | .inclOpt t => sub false true t ctx c
+      | .imp t => sub true false t [] c
       | .py key => (pyGet cfg.allow cfg.modules key, c)
     match r.1 with
     | .error e => (.error e, r.2)
@@ -422,18 +441,18 @@ def renderNodesM (cfg : Cfg) (sub : Bool → Name → Ctx → MCache → Outcome
       (r2.1.map (s ++ ·), r2.2)
 
 def renderTemplateM (cfg : Cfg) (fs : FS) :
-    Nat → Bool → Name → Ctx → MCache → Outcome × MCache
-  | 0, _, _, _, c => (.error .recursion, c)
-  | fuel + 1, asImport, name, ctx, c =>
+    Nat → Bool → Bool → Name → Ctx → MCache → Outcome × MCache
+  | 0, _, _, _, _, c => (.error .recursion, c)
+  | fuel + 1, asImport, opt, name, ctx, c =>
     match getTemplateM cfg fs c name with
-    | (.error e, c') => (.error e, c')
+    | (.error e, c') => (onGetError opt e, c')
     | (.ok t, c') =>
       match (if asImport then (c' name).bind (·.2.2) else none) with
       | some memo => (.ok memo, c')
       | none =>
         let r := renderNodesM cfg
-          (fun i t' ctx' c'' =>
-            renderTemplateM cfg fs fuel i (joinPath cfg.relative t' name) ctx' c'')
+          (fun i o t' ctx' c'' =>
+            renderTemplateM cfg fs fuel i o (joinPath cfg.relative t' name) ctx' c'')
           ctx t c'
         if asImport then
           match r.1 with
@@ -447,7 +466,7 @@ def runMemo (cfg : Cfg) (fuel : Nat) : FS → MCache → List Op → List Outcom
   | fs, c, .write p t s :: rest => runMemo cfg fuel (fs.write p t s) c rest
   | fs, c, .delete p :: rest => runMemo cfg fuel (fs.delete p) c rest
   | fs, c, .render name caller :: rest =>
-    let r := renderTemplateM cfg fs fuel false name (mergeCtx cfg.baseCtx caller) c
+    let r := renderTemplateM cfg fs fuel false false name (mergeCtx cfg.baseCtx caller) c
     r.1 :: runMemo cfg fuel fs r.2 rest
 
 end Vinegar.Jinja
